@@ -20,6 +20,7 @@ Qed.
 Lemma tie_handle_unrecognized_method q k : peq (src_handle_unrecognized_method q k) (handle_unrecognized_method q k).
 Proof.
   unfold src_handle_unrecognized_method, handle_unrecognized_method.
+  destruct (req_only_if_cached _); [apply peq_refl|].
   destruct (is_unsafe_method (q_method q)); cbn [negb andb]; constructor; intros [|r]; try apply peq_refl.
   all: try (destruct (is_non_error_status (p_status r)); apply peq_refl).
 Qed.
